@@ -48,6 +48,8 @@ def discover(chk, with_fixtures=False):
     embs, bad, failed = C.discover()
     if with_fixtures:
         embs = embs + C.fixtures()
+    else:   # the fixture built with the (non-deprecated) @unevaluated decorator belongs to C14's universe as well
+        embs = embs + [f for f in C.fixtures() if f.name == "InterleavedExpr"]
     if len(embs) < 20:
         raise Machinery(f"class discovery found only {len(embs)} classes")
     chk.part("class_universe", classes=[e.describe() for e in embs], not_instantiable=bad, modules_failed_to_import=failed,
@@ -187,7 +189,9 @@ def run(chk, replay=None):
         i = ctx[rid]
         if i.get("carrier"):
             case = {"record": rid, **{k: v for k, v in i.items() if k in ("cls", "obj", "what", "res")}}
-            if clause == "SubstThenUnfoldEqualsUnfoldThenSubst":
+            if i.get("function_pair"):
+                chk.violation(f"unevaluated.__eq__:function-valued-attribute:{clause}", f"{i['cls']}: {i['obj']} vs {i['res']}: == is {byid[rid]['eq']}, equal hash is {byid[rid]['hash']}", case)
+            elif clause == "SubstThenUnfoldEqualsUnfoldThenSubst":
                 chk.violation(f"unevaluated.{i['opname']}:symbolic-non-sympy-attribute:substitute-then-unfold-differs", f"{i['cls']}: {i['obj']}: {i['what']}", case)
             else:
                 chk.violation(f"unevaluated.{i['opname']}:symbolic-non-sympy-attribute:not-substituted", f"{i['cls']}: {i['obj']}.{i['what']} = {i.get('res')} ({clause})", case)
